@@ -1,7 +1,7 @@
 (* C07 — parts of the full statement that are false of the faithful model, by witness *)
 From Coq Require Import String Ascii List Bool ZArith Arith.
 Import ListNotations.
-Require Import V.Lib.PyStr V.Lib.JTree V.Conf.Model V.Reload.Model V.Reload.Obs V.Reload.Idem V.Reload.Dir.
+Require Import V.Lib.PyStr V.Lib.JTree V.Conf.Model V.Reload.Model V.Reload.Obs V.Reload.Idem V.Reload.Dir V.Reload.Loops.
 Open Scope string_scope.
 
 (* F7b (repaired).  The pinned instance() replaced environments per NAME ([fl_envs_pinned]): with e = {A:1, B:2} on the
@@ -137,3 +137,16 @@ Theorem C07_recreate_guarded_refuted : exists (mine old : nat),
   generate_guarded false true true mine (Some old) <> Some mine /\ generate nat true true mine (Some old) = Some mine.
 Proof. exists 1, 7. split; [vm_compute; discriminate|reflexivity]. Qed.
 Print Assumptions C07_recreate_guarded_refuted.
+
+(* The loop placeholders over time (Loops.v).  C07_loops_reload needs _discover_dowhile_placeholders as it is - the entry of
+   self._placeholders is REPLACED by what was just matched.  With the guard `a placeholder only ever moves forward` that compares
+   the two references as text (discover_guarded: 'stage1.9#collect' > 'stage1.10#collect') the live graph agrees with the
+   reloaded one for up to nine further iterations and keeps iteration 9 as the latest one from the tenth on, while the
+   experiment loaded from the directory (no earlier state) resolves iteration 10. *)
+Theorem C07_loops_text_guard_refuted : exists (st : N) (name : string) (k : nat),
+  forallb (fun j => match l_latest (after_guarded st name j) with Some i => N.eqb i (N.of_nat j) | None => false end) (seq 0 k) = true /\
+  l_latest (after_guarded st name k) = Some 9%N /\
+  l_comps (after_guarded st name k) = l_comps (after k) /\
+  l_latest (load (l_comps (after_guarded st name k))) = Some 10%N.
+Proof. exists 1%N, "collect", 10%nat. repeat split; vm_compute; reflexivity. Qed.
+Print Assumptions C07_loops_text_guard_refuted.
